@@ -13,6 +13,7 @@ Fail-closed.  Three kinds of output:
     _perform_message_callback   guards the callback with <EXC>
     encode_message_data     serialize, then obfuscation.encode(data) with a fresh key iff obfuscated
     send_message            one encode_message_data + one _send per call
+    _send                   ONE writer.write(data), then drain (no await between pieces of a frame)
     queue_message           one task running send_message(message)
     queue_messages          [self.queue_message(message) for message in messages]  (order kept, one frame each)
     serialize_message       message.serialize() for a MessageDataclass, raw bytes otherwise
@@ -66,6 +67,12 @@ TEMPLATES = {
         "try:\n    data = self.encode_message_data(message)\nexcept MessageSerializationError:\n    adapter.exception('failed to serialize message : %s', message)\n    return",
         'await self._send(data, timeout={TMO})',
         'self._increase_read_timeout()',
+    ],
+    '_send': [
+        "if not self._writer:\n    raise ConnectionWriteError(f'{self.hostname}:{self.port} : cannot send data, connection is not open')",
+        "try:\n    self._writer.write(data)\n    if timeout:\n        async with atimeout(timeout):\n            await self._writer.drain()\n    else:\n        await self._writer.drain()\n"
+        "except asyncio.TimeoutError as exc:\n    await self._disconnect_detached(CloseReason.TIMEOUT)\n    raise ConnectionWriteError(f'{self.hostname}:{self.port} : write timeout') from exc\n"
+        "except Exception as exc:\n    await self._disconnect_detached(CloseReason.WRITE_ERROR)\n    raise ConnectionWriteError(f'{self.hostname}:{self.port} : exception during writing') from exc",
     ],
     'queue_message': [
         "task = asyncio.create_task(self.send_message(message), name=f'queue-message-task-{task_counter()}')",
@@ -171,6 +178,7 @@ def translate(src: Path) -> dict:
            f'Definition callback_guarded_by_exception : bool := {catches_all_exceptions(exc_cb)}.  (* except {exc_cb} in _perform_message_callback *)\n',
            'Definition frame_is_header_plus_body : bool := true.        (* _read_message returns header + message *)\n',
            'Definition one_frame_per_send_message : bool := true.       (* send_message: one encode_message_data, one _send *)\n',
+           'Definition frame_written_in_one_piece : bool := true.       (* _send: ONE writer.write(data) before the first await (drain): frames of concurrent senders cannot interleave *)\n',
            'Definition frame_obfuscated_on_its_own : bool := true.      (* encode_message_data: obfuscation.encode(data) per frame, fresh key *)\n',
            'Definition queue_message_is_send_message : bool := true.    (* queue_message: task of send_message(message) *)\n',
            'Definition queue_messages_in_order_one_each : bool := true. (* [self.queue_message(m) for m in messages] *)\n\n',
